@@ -180,7 +180,10 @@ pub fn c09(rec: &mut Rec, lm: &Landmarks, rng: &mut Rng, thorough: bool) {
         let ndays = if is_leap(y) { 366 } else { 365 };
         for doy in 0..ndays {
             k += 1;
-            if !thorough && k % 3 != 0 && doy > 2 && doy < ndays - 2 && !(58..=61).contains(&doy) {
+            // (every third day in the quick tier, every fifth of all 3.65 million days in the thorough tier, plus the
+            // days around the ends of the year and around 28/29 February of every enumerated year; the fields of every
+            // day are checked by c09_fields above - it is the text that is expensive to judge)
+            if k % (if thorough { 5 } else { 3 }) != 0 && doy > 2 && doy < ndays - 2 && !(58..=61).contains(&doy) {
                 continue;
             }
             let ts = SCALES[k % 9];
